@@ -21,7 +21,8 @@ def run(ctx):
     # tree) may have regenerated it since prepare(). Regenerate from OUR tree and build under the translator lock.
     with vcheck.Lock("translator"):
         vcheck.sh([vcheck.TRANSLATOR_BIN, "-repo", vcheck.REPO, "-out", vcheck.GENERATED])
-        ctx.obligations("NGF.Props.C12")
+        ctx.obligations("NGF.Props.C12Apply")   # apply transaction + composed batch model (no generated facts)
+        ctx.obligations("NGF.Props.C12")        # reload / handler / status theorems + fact pins (imports C12Apply)
     if ctx.tier == "thorough":
         ctx.leanchecker("NGF.Props.C12")
 
@@ -41,15 +42,13 @@ def run(ctx):
     for k, v in sizes.items():
         args += [f"-{k}", v]
     lines = ctx.harness(args, timeout=1500) or []
-    if corpus_lines and os.path.exists(cpath):
-        os.remove(cpath)
     if not getattr(ctx, "harness_ok", False):
         ctx.broken("harness does not build against the current tree", detail="\n".join(ctx.build_errors))
     elif not lines:
         ctx.broken("harness produced no output", detail=getattr(ctx, "harness_err", ""))
 
-    model_in, obs, judge_in, kinds, notes = [], [], [], collections.Counter(), []
-    for l in lines:
+    model_in, obs, judge_in, kinds, notes, case_idx = [], [], [], collections.Counter(), [], []
+    for li, l in enumerate(lines):
         parts = dict(p.split(" ", 1) for p in l.split("\t") if " " in p)
         if "K" in parts:
             for k in parts["K"].split("+"):
@@ -59,6 +58,7 @@ def run(ctx):
         if "M" in parts and "O" in parts:
             model_in.append(parts["M"])
             obs.append(parts["O"])
+            case_idx.append(li)
         if "J" in parts:
             judge_in.append(parts["J"])
 
@@ -80,19 +80,41 @@ def run(ctx):
             break
 
     # 2. correspondence: the Lean model on the same oracle scripts / batch sequences
-    outs = ctx.driver("model", model_in)
-    diffs = 0
-    for m, o, out in zip(model_in, obs, outs):
+    def agrees(m, o, out):
         if m[0] == "H":
             ws, gs = o.split(";"), out.split(";")
-            ok = len(ws) == len(gs) and all(_same(w, g) for w, g in zip(ws, gs))
+            return len(ws) == len(gs) and all(_same(w, g) for w, g in zip(ws, gs))
+        return out != "bad-op" and _same(o, out)
+
+    outs = ctx.driver("model", model_in)
+    diverging = [k for k, (m, o, out) in enumerate(zip(model_in, obs, outs)) if not agrees(m, o, out)]
+    # The deadlines of the code under test are wall-clock (scaled down): on a loaded machine a scripted event may
+    # not be reached before the deadline. Every diverging case is therefore re-run ALONE with all timeouts x20
+    # (same seed, same random stream: `-only <case>`), and reported only if the divergence persists.
+    diffs, resolved, reran = 0, 0, 0
+    for k in diverging:
+        if diffs >= 3:
+            diffs += 1      # enough evidence: the remaining ones are counted, not re-run
+            continue
+        reran += 1
+        again = ctx.harness(args + ["-only", case_idx[k], "-scale", 20, "-workers", 1], timeout=900) or []
+        parts = dict(p.split(" ", 1) for p in (again[0] if again else "").split("\t") if " " in p)
+        m2, o2 = parts.get("M"), parts.get("O")
+        if m2 and o2:
+            out2 = ctx.driver("model", [m2])[0]
+            if agrees(m2, o2, out2):
+                resolved += 1
+                ctx.log(f"divergence of case {case_idx[k]} did not persist when re-run alone with timeouts x20 "
+                        f"(first run: impl [{obs[k][:160]}] / model [{outs[k][:160]}])")
+                continue
         else:
-            ok = out != "bad-op" and _same(o, out)
-        if not ok:
-            diffs += 1
-            if diffs <= 3:
-                ctx.broken(f"model and implementation disagree on [{m[:400]}]: impl [{o[:400]}] / model [{out[:400]}]",
-                           replay={"input": m, "impl": o, "model": out})
+            m2, o2, out2 = model_in[k], obs[k], outs[k]
+        diffs += 1
+        ctx.broken(f"model and implementation disagree on [{m2[:400]}]: impl [{o2[:400]}] / model [{out2[:400]}] "
+                   f"(persisted when re-run alone with timeouts x20)",
+                   replay={"input": m2, "impl": o2, "model": out2, "first_run": {"impl": obs[k], "model": outs[k]}})
+    if corpus_lines and os.path.exists(cpath):
+        os.remove(cpath)
     harness_notes = [n for n in notes if not n.startswith("panic")]
     if harness_notes:
         ctx.broken(f"harness anomaly: {harness_notes[0]}")
@@ -103,6 +125,16 @@ def run(ctx):
     seq_len = collections.Counter(len(m.split("bs=")[1].split(";")) for m in model_in if m[0] == "H")
     res_hist = collections.Counter(_kv(o).get("res", "?") for m, o in zip(model_in, obs) if m[0] in "RW")
     rr_hist = collections.Counter(_kv(s).get("rr") for m, o in zip(model_in, obs) if m[0] == "H" for s in o.split(";"))
+    files_hist = collections.Counter()
+    for b in batches:
+        w = _kv(b, "/").get("w", "ok")
+        if w != "ok":
+            cls, k = w.split(":")
+            vi = int(_kv(b, "/").get("vi", 0))
+            files_hist[{"n": "notExist", "p": "permission", "i": "EIO", "o": "plain"}[cls]
+                       + (" after" if int(k) > vi else " before") + " version file"] += 1
+    judged_disk = sum(1 for j in judge_in if j[0] in "HP" for o in j.split("obs=")[1].replace("|", ";").split(";")
+                      if "/full=1" in o or "/full=0" in o)
     nontrivial = {m for m, o in zip(model_in, obs)
                   if (m[0] in "RW" and ("," in _kv(m).get("vs", "") or "," in _kv(m).get("ch", "") or _kv(o).get("res") != "ok"))
                   or (m[0] == "H" and ";" in m)
@@ -116,6 +148,8 @@ def run(ctx):
         "samples": model_in[:2] + [m for m in model_in if m[0] == "H"][:2] + judge_in[-2:],
         "traces_validated_against_impl": len(model_in) - diffs,
         "correspondence_diffs": diffs,
+        "divergences_rerun_alone_x20": reran,
+        "divergences_not_persisting_on_rerun": resolved,
         "judged": len(judge_in),
         "corpus_cases": len(corpus_lines),
         "judge_failures": dict(fails),
@@ -129,13 +163,21 @@ def run(ctx):
         "handler_change_type_histogram": dict(ct_hist),
         "handler_sequence_length_histogram": {str(k): v for k, v in sorted(seq_len.items())},
         "handler_reload_result_histogram": {str(k): v for k, v in rr_hist.items()},
+        "replacefiles_failures_by_error_class_and_position": dict(files_hist),
+        "file_operation_faults_by_op_and_class (per sequence)": {k[6:]: v for k, v in kinds.items() if k.startswith("files-")},
+        "batches_judged_against_the_disk (on-disk set vs generated set, version file on disk)": judged_disk,
     }, assumptions=[
         "the NGINX master is an environment: the simulator (pid file, children file, HUP, unix-socket version endpoint) presents "
         "scripted behaviours; nothing is assumed about them in the theorems",
-        "wall-clock deadlines are abstracted to poll budgets; deadline cases use 'never' behaviours and their poll counts are not compared",
+        "wall-clock deadlines are abstracted to poll budgets; deadline cases use 'never' behaviours and their poll counts are not "
+        "compared; a case whose result differs from the model is re-run alone with all timeouts x20 before it is reported",
+        "ReplaceFiles is a cut point: its outcome (error class by errors.Is, number of completely written files) is input of the "
+        "model; the real file.ManagerImpl runs over a fault-injecting file layer (its own atomicity is C11's subject)",
         "PidFileTimeout/NginxReloadTimeout are scaled down in the harness (the constants and call sites are pinned by ReloadFacts)",
         "version uniqueness is per controller process (h.version restarts at 0 when the NGF container restarts while NGINX keeps running)",
         "data races on nginxConfiguredOnStartChecker.ready (read without the lock in the handler) are outside the model",
     ], trusted=[
-        "harness/c12 simulator of the NGINX master and the classification of returned errors by message/sentinel",
+        "harness/c12 simulator of the NGINX master (it loads and serves the version file actually on disk) and the "
+        "classification of returned errors by message/sentinel",
+        "harness/c12 fault-injecting file layer under the real file.ManagerImpl",
     ])
